@@ -345,7 +345,7 @@ def eff_1(ctx, rep):
             continue
         for n, why in writes:
             if key in ALLOWED_SHARED_WRITES:
-                rep.ob('EFF-1', key[0], key[1], norm(n), True, ALLOWED_SHARED_WRITES[key])
+                rep.ob('EFF-1', key[0], key[1], norm(n), True, reason=ALLOWED_SHARED_WRITES[key])
             else:
                 rep.ob('EFF-1', key[0], key[1], norm(n), False,
                        'write to shared state (%s) reachable at parse time via %s' % (why, ' -> '.join(call_path(prev, key)[-4:])))
@@ -450,7 +450,7 @@ def eff_4(ctx, rep, roots):
                 if _set_typed(ctx, f, it):
                     bad.append(it)
         if bad and key in EFF4_ALLOWED:
-            rep.ob('EFF-4', key[0], key[1], 'iteration over %s' % norm(bad[0]), True, EFF4_ALLOWED[key])
+            rep.ob('EFF-4', key[0], key[1], 'iteration over %s' % norm(bad[0]), True, reason=EFF4_ALLOWED[key])
         else:
             rep.ob('EFF-4', key[0], key[1], 'def %s' % f.name if not bad else 'iteration over %s' % norm(bad[0]), not bad,
                    'result may depend on set iteration order (string hashing is randomised per process)')
